@@ -17,16 +17,16 @@ import (
 
 // WOp is one step of a waiter script.
 type WOp struct {
-	K   string `json:"k"` // start cancel put putmany casok casbad delete create advance
-	Key int    `json:"key,omitempty"`
-	W   int    `json:"w,omitempty"`   // cancel: index into the live waiters (modulo)
-	Ver int    `json:"ver,omitempty"` // start: 0 current version, 1 a stale version, 2 unknown (garbage) version
-	Pre bool   `json:"pre,omitempty"` // start: the context is already cancelled
-	Gate bool  `json:"gate,omitempty"` // start: the waiter is held at its first ctx.Done() (after it registered, before it parks) until an "ungate" step
-	Two bool   `json:"two,omitempty"` // putmany: both keys
-	Exp bool   `json:"exp,omitempty"` // write with expiry +1h (only where the clock is controlled)
-	Past bool  `json:"past,omitempty"` // write a record whose expiry is already in the past: the key is gone for every waiter (in-memory only)
-	Min int    `json:"min,omitempty"` // advance
+	K    string `json:"k"` // start cancel put putmany casok casbad delete create advance
+	Key  int    `json:"key,omitempty"`
+	W    int    `json:"w,omitempty"`    // cancel: index into the live waiters (modulo)
+	Ver  int    `json:"ver,omitempty"`  // start: 0 current version, 1 a stale version, 2 unknown (garbage) version
+	Pre  bool   `json:"pre,omitempty"`  // start: the context is already cancelled
+	Gate bool   `json:"gate,omitempty"` // start: the waiter is held at its first ctx.Done() (after it registered, before it parks) until an "ungate" step
+	Two  bool   `json:"two,omitempty"`  // putmany: both keys
+	Exp  bool   `json:"exp,omitempty"`  // write with expiry +1h (only where the clock is controlled)
+	Past bool   `json:"past,omitempty"` // write a record whose expiry is already in the past: the key is gone for every waiter (in-memory only)
+	Min  int    `json:"min,omitempty"`  // advance
 }
 
 // WCase is a waiter script.
@@ -36,16 +36,16 @@ type WCase struct {
 
 // WEnv is where a script runs.
 type WEnv struct {
-	Name    string
-	St      kvs.Storage
-	Prefix  string
-	Settle  func(mustReturn []chan struct{}) bool // reach quiescence; false = a waiter that must return did not (bounded real time only)
-	Advance func(time.Duration)                 // nil: no clock control (advance/Exp are skipped)
-	Now     func() time.Time
-	Table   func() (int, int, bool)
-	Gates   bool // gated starts are possible (deterministic environment only)
-	Fault   func() // makes the storage behind the backend fail for a moment (nil: not available)
-	PastWrites bool // records may be written with an expiry that is already in the past (backends without TTL clamping)
+	Name       string
+	St         kvs.Storage
+	Prefix     string
+	Settle     func(mustReturn []chan struct{}) bool // reach quiescence; false = a waiter that must return did not (bounded real time only)
+	Advance    func(time.Duration)                   // nil: no clock control (advance/Exp are skipped)
+	Now        func() time.Time
+	Table      func() (int, int, bool)
+	Gates      bool   // gated starts are possible (deterministic environment only)
+	Fault      func() // makes the storage behind the backend fail for a moment (nil: not available)
+	PastWrites bool   // records may be written with an expiry that is already in the past (backends without TTL clamping)
 }
 
 type wkey struct {
